@@ -18,6 +18,10 @@ pub fn params_pool(rng: &mut Sm64, i: u64) -> (f64, u64, f64, u64) {
         2 => 100_000,  // above u16::MAX: overflow branch for u16 registers
         _ => 1 + rng.below(2000),
     };
+    if i % 11 == 7 {
+        // base so close to 1 that u16 registers SATURATE at u16::MAX (q + 1 > 65535): the overflow counter runs, sketch() still returns Ok
+        return (1.0001, m, a, 1 << 17);
+    }
     (b, m, a, q)
 }
 
